@@ -63,8 +63,33 @@ def _enclosing_lists(ctx, rep, cl):
         except Unfoldable:
             ok_lists = False
     rep.ob(cl + ".enclosing-constants", f.name, ok_lists, "enclosing head/tail texts fold to constant lists of non-empty strings: %s" % lists, W(f))
+    # balanced: what may be stripped in front has its counterpart behind, so brackets/quotes are restored in place
+    H, T = lists.get("_PASSWORD_ENCLOSING_HEAD_TEXT") or [], lists.get("_PASSWORD_ENCLOSING_TAIL_TEXT") or []
+    need_h = ["\\'", '\\"', "'", '"', "[", "{"]
+    need_t = ["\\'", '\\"', "'", '"', "]", "}", ";", ","]
+    miss = [x for x in need_h if x not in H] + [x for x in need_t if x not in T]
+    rep.ob(cl + ".enclosing-complete", f.name, not miss, "enclosing texts that are kept around a secret: head %s tail %s; missing %s (a missing closing bracket/terminator would be swallowed into the pseudonym)" % (H, T, miss), W(f), key=cl + ".enclosing-complete|_extract_enclosing_text")
     inp = ("param", f.params[0])
     hp, tp = ("param", f.params[1]), ("param", f.params[2])
+    ln = lambda t: ("call", ("builtin", "len"), (t,), ())
+    for uid, li in fp.loops.items():
+        if li.iter is None or li.iter[0] != "global":
+            continue
+        is_head = li.iter[2].endswith("HEAD_TEXT")
+        lv0 = ("loopvar", li.uid, li.iter, ())
+        for vname, (vpre, vposts) in li.carried.items():
+            for post in vposts:
+                cv = ("carried", vname, li.uid)
+                if post == cv or vname in (f.params[1], f.params[2]):
+                    continue
+                want = ("sub", cv, ("slice", ln(lv0), None, None)) if is_head else ("sub", cv, ("slice", None, ("unop", "-", ln(lv0)), None))
+                if post[0] == "sub":
+                    rep.ob(cl + ".enclosing-strip", "%s:%s" % (f.name, "head" if is_head else "tail"), post == want, "after moving an enclosing text the value becomes %s; expected exactly that text removed (%s)" % (show(post), show(want)), W(f, li.node), key="%s.enclosing-strip|%s" % (cl, "head" if is_head else "tail"))
+        for bp in li.body_paths:
+            t = bp.truth(("call", ("attr", ("carried", [n for n in li.carried if n not in (f.params[1], f.params[2])][0] if [n for n in li.carried if n not in (f.params[1], f.params[2])] else "val", li.uid), "startswith" if is_head else "endswith"), (lv0,), ()))
+            changed = any(bp.env.get(n) != ("carried", n, li.uid) for n in li.carried)
+            if changed:
+                rep.ob(cl + ".enclosing-guard", "%s:%s" % (f.name, "head" if is_head else "tail"), t is True, "enclosing text is moved only when the value really %s it" % ("starts with" if is_head else "ends with"), W(f, li.node), key="%s.enclosing-guard|%s" % (cl, "head" if is_head else "tail"), nontrivial=False)
     for uid, li in fp.loops.items():
         for bp in li.body_paths:
             lv = ("loopvar", li.uid, li.iter, ())
